@@ -60,10 +60,16 @@ class TaskGroup(TaskConstraint):
             ]
 
         for task in self.list_of_tasks:
-            self._scheduled_assertion += [
+            member_assertions = [
                 task._start >= self._start,
                 task._end <= self._end,
             ]
+            if task.optional:
+                # a member that is not scheduled is not part of the group
+                member_assertions = [
+                    z3.Implies(task._scheduled, asst) for asst in member_assertions
+                ]
+            self._scheduled_assertion += member_assertions
 
 
 class UnorderedTaskGroup(TaskGroup):
@@ -85,17 +91,27 @@ class OrderedTaskGroup(TaskGroup):
         # add a constraint between each task
         for i in range(len(self.list_of_tasks) - 1):
             if self.kind == "lax":
-                self._scheduled_assertion += [
+                order_assertion = (
                     self.list_of_tasks[i]._end <= self.list_of_tasks[i + 1]._start
-                ]
+                )
             elif self.kind == "strict":
-                self._scheduled_assertion += [
+                order_assertion = (
                     self.list_of_tasks[i]._end < self.list_of_tasks[i + 1]._start
-                ]
+                )
             else:  # kind == 'tight':
-                self._scheduled_assertion += [
+                order_assertion = (
                     self.list_of_tasks[i]._end == self.list_of_tasks[i + 1]._start
-                ]
+                )
+            if self.list_of_tasks[i].optional or self.list_of_tasks[i + 1].optional:
+                # the order only binds two tasks that are both scheduled
+                order_assertion = z3.Implies(
+                    z3.And(
+                        self.list_of_tasks[i]._scheduled,
+                        self.list_of_tasks[i + 1]._scheduled,
+                    ),
+                    order_assertion,
+                )
+            self._scheduled_assertion += [order_assertion]
 
         self.set_z3_assertions(z3.And(self._scheduled_assertion))
 
